@@ -224,7 +224,14 @@ pub fn run_scenario(bench: &mut Bench, sc: &Scenario) -> ScenarioOutcome {
         best
     });
     let Some(rec) = target_rec else {
-        if sc.via_uci && matches!(outcome, Outcome::Aborted(Abort::NodeCap)) {
+        // a warm-up search (no clock) that ran into the step cap: nothing to judge
+        let warmup_capped = {
+            let st = last_state.borrow();
+            matches!(outcome, Outcome::Aborted(Abort::NodeCap)) && st.searches.last().map(|s| s.call_id == st.call_id).unwrap_or(false)
+        };
+        if warmup_capped {
+            out.probes.add("inconclusive_warm_up_search_hit_the_step_cap", 1);
+        } else if sc.via_uci && matches!(outcome, Outcome::Aborted(Abort::NodeCap)) {
             out.violations.push(("work_before_arming_the_deadline".into(), "the go command ran into the step cap without ever starting the timer".into()));
         } else {
             out.violations.push(("crash".into(), format!("no search was started: {:?}", outcome)));
